@@ -26,6 +26,20 @@ theorem creg_xor_of (c : CReg) (b : Bool) (m : Nat) : creg_xor (cregOfModel c) b
 theorem creg_reset_of (c : CReg) (i : Nat) : creg_reset (cregOfModel c) i = cregOfModel (c.reset i) :=
   creg_eq_of_toModel _ _ (creg_reset_eq _ _)
 
+/-- `Sym::new`: a register of as many qubits / classical bits as the interpreter declared (fewer than 64, which the
+interpreter's declaration checks guarantee), the interpreter's queue and measurement mode -/
+theorem sym_new_eq (i : Interp R) (hq : i.qReg.length < 64) : sym_new i = symOfModel (Sym.new i) := by
+  simp only [sym_new, symOfModel, Sym.new, quant_new_eq _ hq]
+  congr 1
+  exact creg_eq_of_toModel _ _ (creg_new_eq _)
+
+theorem sym_get_class_eq (s : Sym R) : sym_get_class (symOfModel s) = cregOfModel s.cReg := rfl
+
+theorem sym_get_probabilities_eq (s : Sym R) (h : s.qReg.qNum < 64) (hs : 2 ^ s.qReg.qNum ≤ s.qReg.psi.size) :
+    sym_get_probabilities (symOfModel s) = s.qReg.getProbabilities := by
+  simp only [sym_get_probabilities, symOfModel]
+  exact quant_get_probabilities_eq s.qReg h hs
+
 theorem sym_reset_eq (s : Sym R) : sym_reset (symOfModel s) = symOfModel s.reset := by
   simp [sym_reset, symOfModel, Sym.reset, quant_reset_eq, creg_reset_of]
 
